@@ -1,10 +1,11 @@
 """C08 -- structural-property predicates agree with their definitions (structural clauses)."""
 from ..core import Ctx, Ob, PropSpec
-from ..rules import r7
+from ..rules import r7, r7d
 
 
 def run(ctx: Ctx) -> list[Ob]:
     obs: list[Ob] = []
+    obs += r7d.r7d(ctx)
     obs += r7.r7a(ctx, ["cirkit.symbolic.circuit._scope_factorizations"], require=1)
     obs += r7.r7c_onesided(ctx, "cirkit.symbolic.circuit._are_compatible")
     obs += r7.r7_owner(ctx, "cirkit.templates.region_graph.graph.RegionGraph.is_compatible")
@@ -15,14 +16,16 @@ SPEC = PropSpec(
     pid="C08",
     title="Structural-property predicates agree with their definitions",
     decides=(
-        "R7a: the canonical form of a product's scope factorization (circuit._scope_factorizations) must not be obtained by sorting "
+        "R7d (definition shape, matched on quantifier / domain / comparator after pushing negations inwards): is_smooth is FORALL sum "
+        "layers FORALL inputs scope *equality*; is_decomposable is FORALL product layers FORALL unordered input pairs *disjoint* "
+        "scopes; is_structured_decomposable requires exactly one factorization for every scope; R7a: the canonical form of a product's scope factorization (circuit._scope_factorizations) must not be obtained by sorting "
         "Scopes with Scope.__lt__ while that is the strict-subset (partial) order -- the sub-scopes of a product are pairwise "
         "incomparable, so such a sort returns the listing order and the answer depends on how a layer lists its inputs; R7c: "
         "circuit._are_compatible must not reject keys missing on one side while never examining the converse (one-sided comparison "
         "= asymmetric answer); R7o: RegionGraph.is_compatible may query node_inputs/node_outputs of a node only on the graph the "
         "node was drawn from."
     ),
-    not_decided="completeness of the predicates (they may under-report compatibility); the quantifier shape of is_smooth / is_decomposable (R7d of DESIGN 3 not built).",
+    not_decided="completeness of the predicates (they may under-report compatibility); that stronger predicates answer False for non-smooth operands (not required by the statement, deliberately not armed).",
     run=run,
-    floors={"R7c": 1, "R7o": 2},
+    floors={"R7d": 3, "R7c": 1, "R7o": 2},
 )
